@@ -110,7 +110,11 @@ class WireMonitors:
         if sj.get("stepType") != kind:
             self.violation("C05", "json.step_type", det)
             return
-        data = json.dumps(sj, ensure_ascii=False).encode("utf-8")
+        # a peer's serialiser may order keys and escape non-ASCII differently: vary both,
+        # deterministically per step
+        variant = int(key[:2], 16) if isinstance(key, str) and len(key) >= 2 else 0
+        data = json.dumps(sj, ensure_ascii=bool(variant & 1), sort_keys=bool(variant & 2)).encode("utf-8")
+        self.probes["C05.encoding_variant:%d" % (variant & 3)] += 1
         back = json.loads(data.decode("utf-8"))
         try:
             dec = Step.from_json(sim.schema, back)
